@@ -2,7 +2,7 @@
 driven with candidate stubs whose answers are symbolic but constrained to their contract, a reference written
 from the property text, and a builder that turns an assignment into REAL overloads for replay.
 """
-from yaql.language import exceptions, expressions, runner, utils, yaqltypes
+from yaql.language import exceptions, expressions, runner, specs, utils, yaqltypes
 
 PERMS3 = [[0, 1, 2], [0, 2, 1], [1, 0, 2], [1, 2, 0], [2, 0, 1], [2, 1, 0]]
 
@@ -35,9 +35,17 @@ class Probe(expressions.Expression):
         return ('value', self.tag)
 
 
-class CStub:
+def _stub_payload(*args, **kwargs):
+    return None
+
+
+class CStub(specs.FunctionDefinition):
+    """a real FunctionDefinition (so whatever the runner reads from one is there) whose argument mapping and delegate are
+    dictated by the harness"""
+
     def __init__(self, cid, nokw, maps, deleg, lazy, S, log):
-        self.cid, self.no_kwargs, self.maps, self.deleg, self.lazy, self.S, self.log = cid, nokw, maps, deleg, lazy, S, log
+        specs.FunctionDefinition.__init__(self, 'stub%s' % (cid,), _stub_payload, no_kwargs=nokw)
+        self.cid, self.maps, self.deleg, self.lazy, self.S, self.log = cid, maps, deleg, lazy, S, log
 
     def map_args(self, args, kwargs, context, engine):
         if not self.maps:
